@@ -8,7 +8,7 @@ patch=/tmp/seedwt/${id}${o}/patch$x.diff
 d=$(mktemp -d /tmp/seedtry_XXXX)
 cp -r /repo/dataiter $d/ ; (cd $d && patch -p1 -s < $patch) || { echo "patch failed"; rm -rf $d; exit 2; }
 for p in $props; do
-  out=$(VERIF_REPO=$d /verif/check $p --tier quick --no-evidence 2>&1); code=$?
+  out=$(VERIF_REPO=$d ${VERIF_SNAPSHOT:-/verif}/check $p --tier quick --no-evidence 2>&1); code=$?
   echo "$id-$x $p quick exit=$code"; echo "$out" | grep '^violation' | head -3 | cut -c1-400
 done
 rm -rf $d
